@@ -443,3 +443,22 @@ package compiler
 // Calls to VisitType are recorded as ghost facts so that callbacks can state that they recursed.
 //@ func (*Visitor).VisitType
 //@   traced
+//
+// add_fields: only the selected struct object changes; its existing fields are all kept, unchanged and
+// in place (a field is never overwritten); every field appended after them is one of the configured
+// fields (same name, type and requiredness) whose name the object did not have.
+//@ func (*AddFields).processObject
+//@   property C15
+//@   requires pass != nil
+//@   requires sep: base(pass.Fields) == 0 || base(pass.Fields) != base(object.Type.Struct.Fields)
+//@   modifies object.Type.Struct.Fields, spare-capacity
+//@   ensures  untouched: !objMatch(pass.Object, object) ==> result.0 == object && result.1 == nil && object.Type.Struct.Fields == old(object.Type.Struct.Fields)
+//@   ensures  nonstruct: objMatch(pass.Object, object) && object.Type.Kind != ast.KindStruct ==> result.1 != nil && result.0 == object
+//@   ensures  kept: objMatch(pass.Object, object) && object.Type.Kind == ast.KindStruct ==> result.1 == nil && result.0 == object && len(object.Type.Struct.Fields) >= old(len(object.Type.Struct.Fields)) && (forall i: int :: 0 <= i && i < old(len(object.Type.Struct.Fields)) ==> object.Type.Struct.Fields[i] == old(object.Type.Struct.Fields[i]))
+//@   ensures  added: objMatch(pass.Object, object) && object.Type.Kind == ast.KindStruct ==> (forall k: int :: old(len(object.Type.Struct.Fields)) <= k && k < len(object.Type.Struct.Fields) ==> (exists p: int @src :: 0 <= p && p < len(pass.Fields) && object.Type.Struct.Fields[k].Name == pass.Fields[p].Name && object.Type.Struct.Fields[k].Type == pass.Fields[p].Type && object.Type.Struct.Fields[k].Required == pass.Fields[p].Required))
+//@   ensures  newnames: objMatch(pass.Object, object) && object.Type.Kind == ast.KindStruct ==> (forall k, i: int :: old(len(object.Type.Struct.Fields)) <= k && k < len(object.Type.Struct.Fields) && 0 <= i && i < old(len(object.Type.Struct.Fields)) ==> old(object.Type.Struct.Fields[i].Name) != object.Type.Struct.Fields[k].Name)
+//@   loop 0:
+//@     invariant fresh: base(object.Type.Struct.Fields) == old(base(object.Type.Struct.Fields)) || fresh(object.Type.Struct.Fields)
+//@     invariant newnames: forall k, i: int :: old(len(object.Type.Struct.Fields)) <= k && k < len(object.Type.Struct.Fields) && 0 <= i && i < old(len(object.Type.Struct.Fields)) ==> old(object.Type.Struct.Fields[i].Name) != object.Type.Struct.Fields[k].Name
+//@     invariant kept: len(object.Type.Struct.Fields) >= old(len(object.Type.Struct.Fields)) && (forall i: int :: 0 <= i && i < old(len(object.Type.Struct.Fields)) ==> object.Type.Struct.Fields[i] == old(object.Type.Struct.Fields[i]))
+//@     invariant added: forall k: int :: old(len(object.Type.Struct.Fields)) <= k && k < len(object.Type.Struct.Fields) ==> (exists p: int @src :: 0 <= p && p <= $i && object.Type.Struct.Fields[k].Name == pass.Fields[p].Name && object.Type.Struct.Fields[k].Type == pass.Fields[p].Type && object.Type.Struct.Fields[k].Required == pass.Fields[p].Required) witness src := ite(k == len(object.Type.Struct.Fields) - 1 && $i >= 0, $i, skolem("src", "last", k))
